@@ -436,6 +436,10 @@ mod wallet {
         /// the tip: around delta = 0 `update_chain_tip` switches between a `ChainTip` range, a zero-length
         /// `Verify` range and a non-empty `Verify` range (sharded configuration).
         GenFar { delta: i8 },
+        /// `queue_rescans(ranges, priority)` (a forced rescan, as issued after `check_witnesses`): 1-4 non-empty
+        /// ranges inside [birthday, tip + 1), in ANY order and possibly overlapping; `prio` indexes
+        /// [Historic, OpenAdjacent, FoundNote, ChainTip, Verify].
+        Rescan { ranges: Vec<(u32, u8)>, prio: u8 },
     }
 
     #[derive(Clone, Debug)]
@@ -461,14 +465,16 @@ mod wallet {
             regrow,
             note_at: if regrow == 0 { None } else { n.map(|x| x.min(regrow - 1)) },
         });
+        let resc = (proptest::collection::vec((any::<u32>(), 1u8..=6), 1..=4), 0u8..5).prop_map(|(ranges, prio)| Op::Rescan { ranges, prio });
         let round = (
             gen,
             proptest::bool::weighted(0.15),
             proptest::collection::vec(scan(), 0..=4),
             proptest::option::weighted(0.5, rew),
             proptest::collection::vec(scan(), 0..=2),
+            proptest::option::weighted(0.35, (resc, proptest::collection::vec(scan(), 0..=2))),
         )
-            .prop_map(|(g, stray_tip, scans, rew, post)| {
+            .prop_map(|(g, stray_tip, scans, rew, post, resc)| {
                 let mut v = vec![g];
                 if stray_tip {
                     v.push(Op::Tip);
@@ -477,6 +483,10 @@ mod wallet {
                 if let Some(r) = rew {
                     v.push(r);
                     v.extend(post);
+                }
+                if let Some((r, after)) = resc {
+                    v.push(r);
+                    v.extend(after);
                 }
                 v
             });
@@ -606,6 +616,9 @@ mod wallet {
         sharded: bool,
         /// some earlier rewind removed scanned blocks
         rewound_scanned: bool,
+        rescans: u32,
+        rescans_multi_unsorted: u32,
+        rescans_reopened_scanned: u32,
     }
 
     impl Model {
@@ -854,6 +867,78 @@ mod wallet {
         Ok(())
     }
 
+    /// `WalletDb::queue_rescans`: afterwards the queue must still be a partition and every height must carry the
+    /// dominance rule (forced) applied to its previous priority once per range that contains it.
+    fn rescan(st: &mut St, m: &mut Model, ranges: &[(u32, u8)], prio: u8, what: &str) -> Result<(), Fail> {
+        let Some(t) = m.wallet_tip else { return Ok(()) };
+        if t < m.birthday {
+            return Ok(());
+        }
+        let prio = [Historic, OpenAdjacent, FoundNote, ChainTip, Verify][prio as usize % 5];
+        let span = (t + 1 - m.birthday) as usize;
+        let resolved: Vec<(u32, u32)> = ranges
+            .iter()
+            .map(|(sel, len)| {
+                let s = m.birthday + vcore::pick_index(*sel, span) as u32;
+                (s, (s + *len as u32).min(t + 1))
+            })
+            .collect();
+        let rows = read_rows(st)?;
+        let before = pointwise(&rows);
+        let ne = match nonempty::NonEmpty::from_vec(resolved.iter().map(|(s, e)| BlockHeight::from(*s)..BlockHeight::from(*e)).collect()) {
+            Some(ne) => ne,
+            None => return Ok(()),
+        };
+        match catch(|| st.wallet_mut().db_mut().queue_rescans(ne, prio)) {
+            Ok(Ok(())) => {}
+            Ok(Err(e)) => vfail!("queue-rescans-error", "{what}: queue_rescans({resolved:?}, {prio:?}) failed: {e:?}; queue before {rows:?}"),
+            Err(p) => vfail!(super::panic_sig("queue-rescans-panic", &p), "{what}: queue_rescans({resolved:?}, {prio:?}) panicked: {p}; queue before {rows:?}"),
+        }
+        m.rescans += 1;
+        if resolved.windows(2).any(|w| w[1].0 < w[0].0) {
+            m.rescans_multi_unsorted += 1;
+        }
+        let rows2 = read_rows(st)?;
+        check_partition(&rows2, what)?;
+        let after = pointwise(&rows2);
+        let mut reopened = 0u64;
+        for (h, p1) in &before {
+            let mut want = *p1;
+            for (s, e) in &resolved {
+                if h >= s && h < e {
+                    want = dom(want, prio, true);
+                }
+            }
+            let got = after.get(h);
+            vensure!(
+                got == Some(&want),
+                "rescan-pointwise-priority-mismatch",
+                "{what}: queue_rescans({resolved:?}, {prio:?}): height {h} was {p1:?}, is {got:?}, the dominance rule (forced) gives {want:?}; before {rows:?} after {rows2:?}"
+            );
+            if want != Scanned && m.scanned.remove(h) {
+                reopened += 1;
+            }
+            if want != *p1 {
+                m.since_event.remove(h);
+            }
+        }
+        for (h, p2) in &after {
+            if !before.contains_key(h) {
+                let inside = resolved.iter().any(|(s, e)| h >= s && h < e);
+                vensure!(
+                    (inside && *p2 == prio) || (!inside && *p2 == Historic),
+                    "rescan-extended-queue-with-wrong-priority",
+                    "{what}: queue_rescans({resolved:?}, {prio:?}): height {h} newly covered with {p2:?}; before {rows:?} after {rows2:?}"
+                );
+            }
+        }
+        if reopened > 0 {
+            m.rescans_reopened_scanned += 1;
+            m.reopened_total += reopened;
+        }
+        Ok(())
+    }
+
     fn build_linear() -> St {
         TestBuilder::new()
             .with_data_store_factory(TestDbFactory::default())
@@ -963,6 +1048,9 @@ mod wallet {
             zero_len_verify_tips: 0,
             sharded: hist.sharded,
             rewound_scanned: false,
+            rescans: 0,
+            rescans_multi_unsorted: 0,
+            rescans_reopened_scanned: 0,
         };
         check_state(&st, &mut m, "fresh wallet")?;
 
@@ -1001,6 +1089,7 @@ mod wallet {
                     let regrow = (*regrow as u32).min(room + *depth as u32) as u8;
                     rewind(&mut st, &mut m, *rel_to_scanned, *depth, regrow, *note_at, &what)?;
                 }
+                Op::Rescan { ranges, prio } => rescan(&mut st, &mut m, ranges, *prio, &what)?,
             }
             check_state(&st, &mut m, &format!("after {what}"))?;
         }
@@ -1059,6 +1148,9 @@ mod wallet {
             .label_if(m.saw_foundnote, "foundnote-range-suggested")
             .label_if(m.zero_len_verify_tips > 0, "tip-update-zero-length-verify")
             .label_if(m.far_blocks > 0, "far-tip-jump")
+            .label_if(m.rescans > 0, "forced-rescan")
+            .label_if(m.rescans_multi_unsorted > 0, "forced-rescan-unsorted-ranges")
+            .label_if(m.rescans_reopened_scanned > 0, "forced-rescan-reopened-scanned-blocks")
             .count("scan-steps", m.scan_steps)
             .count("blocks-mined", m.generated_total)
             .count("blocks-reopened", m.reopened_total))
